@@ -18,6 +18,7 @@
 (*                the Memoize wrapper removed (C03)                         *)
 (*       "seq"    mode of|try|foa|many|many1|sepby|sepby1; name # "" means  *)
 (*                Sequence.Name(name)                                       *)
+(*       "single" "suppress"  combinator.Single / SuppressError(kids[1])     *)
 (*       "ltrim" "rtrim"  text.LeftTrim/RightTrim(kids[1], mode) with       *)
 (*                mode none|spaces|nl|forcenl                               *)
 (* Positions are global: B + cursor, B the base offset of the file.         *)
@@ -55,11 +56,12 @@ Remaining(pos) == Len(w) - (pos - B)          \* text.Reader.Remaining
 Byte(pos) == w[pos - B + 1]                   \* defined for B <= pos < B + Len(w)
 AtEOF(pos) == pos - B >= Len(w)
 
-Leaf(s, e) == [t |-> "T", s |-> s, e |-> e]
-EmptyV(p) == [t |-> "E", s |-> p, e |-> p]
-EofV(p) == [t |-> "EOF", s |-> p, e |-> p]
-NT(ks) == [t |-> "N", s |-> ks[1].s, e |-> ks[Len(ks)].e]
-NT0(p) == [t |-> "N", s |-> p, e |-> p]
+\* one: for a non-terminal node with exactly one child, that child (combinator.Single looks at it); <<>> otherwise
+Leaf(s, e) == [t |-> "T", s |-> s, e |-> e, one |-> <<>>]
+EmptyV(p) == [t |-> "E", s |-> p, e |-> p, one |-> <<>>]
+EofV(p) == [t |-> "EOF", s |-> p, e |-> p, one |-> <<>>]
+NT(ks) == [t |-> "N", s |-> ks[1].s, e |-> ks[Len(ks)].e, one |-> IF Len(ks) = 1 THEN <<ks[1]>> ELSE <<>>]
+NT0(p) == [t |-> "N", s |-> p, e |-> p, one |-> <<>>]
 
 \* ast.AppendNode / NodeList.Append: Empty nodes are de-duplicated, order is kept
 RECURSIVE AppendAll(_, _)
@@ -233,6 +235,14 @@ Run(f, r) ==
     [] g.k = "pass" ->    \* a Memoize wrapper that was stripped (C03)
          IF r.t = "none" THEN Call(f, g.kids[1], f.pos, f.lrc, 0)
          ELSE Ret(r.res, r.cp, r.err)
+    [] g.k = "suppress" ->   \* combinator.SuppressError: the error is dropped
+         IF r.t = "none" THEN Call(f, g.kids[1], f.pos, f.lrc, 0)
+         ELSE Ret(r.res, r.cp, NoErr)
+    [] g.k = "single" ->     \* combinator.Single: a lone non-terminal result with exactly one child is replaced by that child
+         IF r.t = "none" THEN Call(f, g.kids[1], f.pos, f.lrc, 0)
+         ELSE IF r.err # NoErr THEN Ret(<<>>, r.cp, r.err)
+         ELSE IF Len(r.res) = 1 /\ r.res[1].t = "N" /\ r.res[1].one # <<>> THEN Ret(<<r.res[1].one[1]>>, r.cp, NoErr)
+         ELSE Ret(r.res, r.cp, NoErr)
     [] g.k = "memo" ->
          IF r.t = "none"
          THEN LET key == <<f.n, f.pos>> IN
